@@ -192,6 +192,12 @@ func init() {
 // real standard package; in the second the import is swapped for a user package with the same name
 // and API, written with the same length, so that every call sits at the same position as before.
 // Nothing remembered from the first session may make the second one report the namesake.
+// notAboutAnAPI: message prefixes of rules that are not about a package API although their rule
+// group also has rules about one.
+var notAboutAnAPI = map[string]string{
+	"dupArg": "suspicious method call with the same argument and receiver",
+}
+
 var c20CaseOverride any
 
 type reanalysisCase struct {
@@ -392,6 +398,12 @@ func checkC20(t core.TB, rec *core.Recorder, all *core.Set, p *core.Program, pc 
 			}
 			for _, d := range diags[name] {
 				if d.Line == 0 || d.Offset < 0 || d.Offset > tf.Size() {
+					continue
+				}
+				if notAboutAnAPI[name] != "" && strings.HasPrefix(d.Text, notAboutAnAPI[name]) {
+					// a rule of the group that matches any method of that name (`$x.Compare($x)`), not the
+					// package function the group's other rules are about
+					rec.Count("generic-rule-not-judged:" + name)
 					continue
 				}
 				pos := tf.Pos(d.Offset)
